@@ -294,3 +294,118 @@ def wit(w):
     if not w:
         return ''
     return ' (e.g. ' + ', '.join('%s=%s' % (k, v) for k, v in sorted(w.items(), key=lambda kv: str(kv[0])) if not str(k).startswith(('k', 'q', 'r', 'M'))) + ')'
+
+
+# ---------------------------------------------------------------- B10: the block moves behind the binary searches
+def check_sorted_move(C, fn, name, dom, leaves, facts0, rep, exit_vals):
+    """sort_fore / sort_back / push_sort with spare capacity: behind the binary search the element is moved to the position the
+    search ended at and everything in between shifts by one.  p is the position the code itself writes the element to (the last
+    copy, resp. the returned slot); obligations: p equals the final value of the search variable (upper end for sort_fore, lower
+    end for the others), the origin of EVERY position of the result is that of the abstract move (symbolic index query), the
+    count is unchanged (+1 for push_sort).  The bubble variants (container full) are iteration tables of rule B9."""
+    base = name[len('a_%s_' % C.kind):]
+    if base not in ('sort_fore', 'sort_back', 'push_sort'):
+        return
+    siz = S('siz_')
+    n0 = S('num_')
+    loc = fn.loc(fn.entry.instrs[0])
+    L = fm.le
+    evs = [v for (f_, h_), v in exit_vals.items() if f_ == fn.name and (('b' in v and 'i' in v) or ('i' in v and 'r' in v))]
+    probs, unk, nq, nmoves = [], [], 0, 0
+    for lf in leaves:
+        st = status_of(lf, dom)
+        if st != 'ok':
+            continue
+        try:
+            ops = block_ops(C, lf, siz)
+        except Unsupported as e:
+            unk.append(str(e))
+            continue
+        if ops is None:
+            unk.append('a block effect is not a whole number of elements')
+            continue
+        if any(k == 'swap' for k, _, _, _ in ops):
+            continue           # a path through the bubble loop of the full container
+        fin = sp.sympify(lf.store[('ctx', C.off['num_'])][0]) if ('ctx', C.off['num_']) in lf.store else n0
+        retX = None
+        if base == 'push_sort':
+            if not isinstance(lf.ret, Ptr):
+                continue
+            isst, off = C.storage(lf.ret)
+            retX = lin.divide(off, siz) if isst else None
+            if retX is None:
+                unk.append('returned pointer is not an element address')
+                continue
+        if not ops and base != 'push_sort':
+            continue           # nothing moved: covered by the unchanged-sequence reading of B8-style checks below only when something moves
+        nmoves += 1
+        p = retX if base == 'push_sort' else ops[-1][1]
+        try:
+            cases = lin.cases_of(dom, lf, facts0, extra_terms=[p])
+        except Unsupported as e:
+            unk.append(str(e))
+            continue
+        for cs in cases:
+            kenv = cs.kenv
+            cons = cs.cons
+            nq += 1
+            want_fin = n0 + 1 if base == 'push_sort' else n0
+            if not eq_entailed(cons, fin, want_fin, kenv):
+                probs.append(('count', 'element count becomes %s, expected %s' % (fin, want_fin)))
+                continue
+            # tie to the search result
+            tied = False
+            for ev in evs:
+                target = ev.get('i')
+                if target is not None and eq_entailed(cons, p, target, kenv):
+                    tied = True
+                elif target is not None and not ops:
+                    # nothing is moved because the search ended at (or behind) the last position: lower end >= p on this path; that it is
+                    # not beyond p is the interval invariant lo <= hi <= count of the reference search (rule B9)
+                    try:
+                        if fm.entails(cons, con(fm.le(p, target), kenv)):
+                            tied = True
+                    except fm.NonLinear:
+                        pass
+            nq += 1
+            if evs and not tied:
+                probs.append(('position', 'the element is placed at position %s, the search ended at %s' % (p, ' / '.join(str(ev.get('i')) for ev in evs))))
+            if base == 'sort_fore':
+                pieces = [([L(K, p - 1)], ('old', K + 1)), ([L(p, K), L(K, p)], ('old', sp.Integer(0))), ([L(p + 1, K)], ('old', K))]
+            elif base == 'sort_back':
+                pieces = [([L(K, p - 1)], ('old', K)), ([L(p, K), L(K, p)], ('old', n0 - 1)), ([L(p + 1, K)], ('old', K - 1))]
+            else:
+                pieces = [([L(K, p - 1)], ('old', K)), ([L(p + 1, K)], ('old', K - 1))]
+            for pconds, want in pieces:
+                try:
+                    c2 = cons + [con(fm.le(0, K), kenv), con(fm.le(K, want_fin - 1), kenv)] + [con(c, kenv) for c in pconds]
+                except fm.NonLinear:
+                    continue
+                if not feasible(c2):
+                    continue
+                try:
+                    alts = origins(K, ops, c2, kenv)
+                except Unsupported as e:
+                    unk.append(str(e))
+                    continue
+                for c3, got in alts:
+                    nq += 1
+                    if got[0] != want[0] or not eq_entailed(c3, got[1], want[1], kenv):
+                        w = lin.witness(lin.Case(c3, kenv), con(fm.le(got[1] + 1, want[1]), kenv), None) if got[0] == want[0] else None
+                        w = w or (lin.witness(lin.Case(c3, kenv), con(fm.le(want[1] + 1, got[1]), kenv), None) if got[0] == want[0] else None)
+                        probs.append(('content', 'with the element placed at %s, position pos of the result holds %s[%s], the abstract move has %s[%s] there%s' % (
+                            p, got[0], got[1], want[0], want[1], wit(w))))
+    if probs:
+        seen = set()
+        for kind, msg in probs:
+            if kind in seen:
+                continue
+            seen.add(kind)
+            rep.bad('B10', '%s{%s}' % (name, kind), msg, loc=loc, key='%s: %s of the sorted move' % (name, kind))
+    elif unk:
+        rep.unk('B10', name, '; '.join(sorted(set(unk))[:2])[:300], loc=loc)
+    elif nmoves == 0 or not evs:
+        rep.unk('B10', name, 'no path behind a summarised binary search moves the element (%d paths, %d searches)' % (nmoves, len(evs)), loc=loc)
+    else:
+        rep.ok('B10', name, 'behind the binary search the element lands at the position the search ended at, every other position of the result has the origin of the abstract move and the count is right (%d symbolic queries on %d paths)' % (nq, nmoves),
+               loc=loc, sample={'fn': name, 'queries': nq, 'paths': nmoves})
